@@ -135,6 +135,24 @@ SRT_2 = b"""1
 00:00:05,000 --> 00:00:06,000
 <font color="#FF000000">transparent</font> <font color="nosuchcolour">unknown name</font> <font color="">empty</font> <font>none</font>
 """
+# formatting carried from one cue into the next: tags left open at the end of a cue, end tags without a start tag in theirs
+SRT_3 = b"""1
+00:00:01,000 --> 00:00:02,000
+<i>Hello
+
+2
+00:00:02,000 --> 00:00:03,000
+world</i> again
+
+3
+00:00:04,000 --> 00:00:05,000
+<b>bold <font color="red">and red
+second line {u}under
+
+4
+00:00:05,000 --> 00:00:06,000
+</font></b> after {/u} the end</i></i> tags
+"""
 VTT_1 = b"""WEBVTT - title
 
 NOTE a comment
@@ -279,7 +297,7 @@ def srt_deep(depth=150):
 
 def seeds():
   """format -> list of (name, bytes)."""
-  out = {"ttml": [("hand1", TTML_1), ("hand2_ruby", TTML_2), ("hand3_cycles_subms", TTML_3), ("hand4_nested_open", TTML_4), ("hand5_nested_regions", TTML_5)], "srt": [("hand1", SRT_1), ("hand2_colours", SRT_2), ("hand3_deep_tags", srt_deep())],
+  out = {"ttml": [("hand1", TTML_1), ("hand2_ruby", TTML_2), ("hand3_cycles_subms", TTML_3), ("hand4_nested_open", TTML_4), ("hand5_nested_regions", TTML_5)], "srt": [("hand1", SRT_1), ("hand2_colours", SRT_2), ("hand3_deep_tags", srt_deep()), ("hand4_carried_tags", SRT_3)],
          "vtt": [("hand1", VTT_1), ("hand2_ruby", VTT_2)], "scc": [("hand1", SCC_1)], "stl": [("hand_cumulative", stl_hand())]}
   for f in sorted(glob.glob(RES + "/ttml/*.ttml"))[:4]:
     out["ttml"].append((os.path.basename(f), open(f, "rb").read()))
